@@ -656,8 +656,8 @@ fn pool_cfg() -> TxPoolConfig {
 
 /// Like `boot_synced` with default caches, but every block is processed to the end before the
 /// next one is delivered (parents always first), so that each intermediate tip really is adopted.
-fn boot_synced_seq(s: &Setup, order: &[H]) -> Option<Node> {
-    let node = Node::boot(&s.gi, &NodeCfg { tx_pool: Some(pool_cfg()), ..Default::default() });
+fn boot_synced_seq(s: &Setup, order: &[H], assume_valid: Option<Vec<ckb_types::H256>>) -> Option<Node> {
+    let node = Node::boot(&s.gi, &NodeCfg { tx_pool: Some(pool_cfg()), assume_valid_targets: assume_valid, ..Default::default() });
     for x in order {
         let _ = node.chain().blocking_process_block(Arc::clone(&s.tg.rc.get(x).block));
     }
@@ -868,9 +868,23 @@ pub fn run(args: &Args) -> i32 {
         // detour: reverse order makes everything arrive as orphans first, then connect
         let n2 = boot_synced(&s, &detour, None);
         // switch-back: the main chain loses to the side branch and wins again
-        let n3 = flip_flop_order(&s).and_then(|o| boot_synced_seq(&s, &o));
+        let n3 = flip_flop_order(&s).and_then(|o| boot_synced_seq(&s, &o, None));
         if n3.is_some() {
             c04.count("switch_back_histories");
+        }
+        // a node that synchronised with two assume-valid targets on the main chain well below the
+        // context: scripts were skipped up to the second target and must be run again after it
+        let n4 = {
+            let main = s.tg.rc.path(&s.tip);
+            if main.len() > 14 {
+                let t = |i: usize| ckb_types::H256::from_slice(&main[i]).unwrap();
+                boot_synced_seq(&s, &direct, Some(vec![t(4), t(9)]))
+            } else {
+                None
+            }
+        };
+        if n4.is_some() {
+            c04.count("assume_valid_histories");
         }
         let cache_cfg = if ci % 2 == 0 { 0 } else { 1 };
         let cold = boot_synced(
@@ -940,6 +954,14 @@ pub fn run(args: &Args) -> i32 {
                 c04.count("history_independence_checks");
                 if (v3.pool, v3.accepted) != (pool, accepted) {
                     c04.violation(&format!("history_dependence@{}", c.name), format!("verdict (pool, block) = {:?} on the directly synchronised node but {:?} on the node whose main chain lost to a side branch and won again", (pool, accepted), (v3.pool, v3.accepted)), wit.clone());
+                }
+            }
+            if let Some(n4) = &n4 {
+                let v4 = verdicts(&s, n4, c, false);
+                c04.eval();
+                c04.count("history_independence_checks");
+                if (v4.pool, v4.accepted) != (pool, accepted) {
+                    c04.violation(&format!("history_dependence@{}", c.name), format!("verdict (pool, block) = {:?} on the directly synchronised node but {:?} on the node that synchronised through two assume-valid targets (both reached long before this context)", (pool, accepted), (v4.pool, v4.accepted)), wit.clone());
                 }
             }
             // C14: cold caches, verification cache cleared before every event
